@@ -28,7 +28,7 @@ UBSAN_ALLOW = [
     (re.compile(r'MiniMessageGateway\.c:\d+:\d+: runtime error: (load|store) (of|to) misaligned address'), 'MiniMessageGateway link pointer'),
 ]
 
-_frame_re = re.compile(r'^\s*#\d+\s+0x[0-9a-f]+\s+(?:in\s+)?(.+?)\s+(/[^\s:]+):(\d+)')
+_frame_re = re.compile(r'^\s*#\d+\s+(?:0x[0-9a-f]+\s+)?(?:in\s+)?(.+?)\s+(/[^\s:]+):(\d+)')   # ASan/UBSan frames carry an address, TSan frames do not
 _vg_frame_re = re.compile(r'^==\d+==\s+(?:at|by) 0x[0-9A-F]+: (.+?) \(([^():]+):(\d+)\)')
 
 
